@@ -592,6 +592,13 @@ def emit_forms10(w, src, must):
     w("(* Drop for Acceptor removes its pending-cancel entry whatever the state *)")
     flag(w, "acceptor_drop_always_removes", pos, neg, "whether Drop for Acceptor can return before it removes its entry")
 
+    ly = src("crates/sip-ua/src/dialog/layer.rs")
+    i = ly.find("impl Drop for UsageGuard")
+    gb = ly[i:ly.find("\n}\n", i) + 3] if i >= 0 else ""
+    neg = bool(re.search(r"try_lock(_for|_until)?\(", gb))
+    pos = bool(re.search(r"\.lock\(\)", gb)) and not neg
+    w("(* Drop for UsageGuard waits for the dialog layer's lock (it does not give up when the lock is held elsewhere) *)")
+    flag(w, "usage_guard_drop_waits", pos, neg, "how Drop for UsageGuard takes the dialog layer's lock")
     ini = src("crates/sip-ua/src/invite/initiator.rs")
     us = ""
     if os.path.exists(os.path.join(translate_repo(), "crates/sip-ua/src/invite/uac_session.rs")):
